@@ -198,6 +198,22 @@ fn edits(base: &[u8], double: bool, step: usize) -> Vec<Vec<u8>> {
             }
         }
     }
+    // head / tail truncations (match-to-end and match-at-start logic), alone and after one substitution
+    for cut in 1..=9usize {
+        if cut + 10 < n {
+            out.push(base[..n - cut].to_vec());
+            out.push(base[cut..].to_vec());
+            out.push(base[cut..n - cut].to_vec());
+            for pos in (0..n - cut).step_by(3) {
+                let mut v = base[..n - cut].to_vec();
+                v[pos] = (v[pos] + 1) & 3;
+                out.push(v);
+                let mut w = base[cut..].to_vec();
+                if pos < w.len() { w[pos] = (w[pos] + 2) & 3; }
+                out.push(w);
+            }
+        }
+    }
     out.push(base.to_vec());
     out.push(base[..n / 2].to_vec());
     out.push(base[n / 3..].to_vec());
@@ -214,11 +230,11 @@ pub fn run() -> i32 {
     quiet_panics();
     let th = rep.thorough();
     let tot = std::sync::Mutex::new(Feat::default());
-    let (b_r, b_t) = if th { (10, 10) } else { (8, 9) };
+    let (b_r, b_t) = if th { (12, 12) } else { (10, 10) };
     exhaustive_block(&rep, &tot, &[0, 1], b_r, b_t, &[5, 6, 8]);
-    let (n_r, n_t) = if th { (7, 7) } else { (6, 6) };
+    let (n_r, n_t) = if th { (8, 8) } else { (7, 7) };
     exhaustive_block(&rep, &tot, &[0, 1, 4], n_r, n_t, &[5, 6, 8]);
-    let (u_r, u_t) = if th { (6, 6) } else { (5, 5) };
+    let (u_r, u_t) = if th { (7, 6) } else { (6, 5) };
     exhaustive_block(&rep, &tot, &[0, 1, 4, 30], u_r, u_t, if th { &[5, 6] } else { &[5] });
     exhaustive_block(&rep, &tot, &[0, 3, 15], if th { 7 } else { 6 }, if th { 7 } else { 6 }, if th { &[5, 8] } else { &[5] });
     // longer strings on {0,1} with reference = periodic (forces many hash hits, backward extension)
